@@ -40,6 +40,46 @@ func AfterFunc(ctx context.Context, f func()) (stop func() bool) {
 	return context.AfterFunc(ctx, f)
 }
 
+// ---- cooperative channel operations (blocking receives and sends outside select statements) ----
+
+// Recv1 is `<-ch`: under the scheduler the task polls and yields until a value (or the close) is there.
+func Recv1[T any](ch <-chan T) T {
+	v, _ := Recv2(ch)
+	return v
+}
+
+// Recv2 is `v, ok := <-ch`.
+func Recv2[T any](ch <-chan T) (T, bool) {
+	if YieldBlocked == nil || ch == nil {
+		v, ok := <-ch
+		return v, ok
+	}
+	for {
+		select {
+		case v, ok := <-ch:
+			return v, ok
+		default:
+			waitFor("chan.recv")
+		}
+	}
+}
+
+// Send is `ch <- v`.
+func Send[T any](ch chan<- T, v T) {
+	if YieldBlocked == nil || ch == nil {
+		ch <- v
+		return
+	}
+	for {
+		select {
+		case ch <- v:
+			return
+		default:
+			waitFor("chan.send")
+		}
+	}
+}
+
 // ---- filesystem hook ----
 
 // FS is what a simulated disk implements.
